@@ -157,3 +157,25 @@ func RawTape(seed uint64, k int) []uint32 {
 	}
 	return out
 }
+
+// Replaying reports whether the tape replays a recorded list.
+func (t *Tape) Replaying() bool { return t.replay }
+
+// Remaining returns the not yet consumed part of a replayed tape.
+func (t *Tape) Remaining() []uint32 {
+	if !t.replay || t.pos >= len(t.in) {
+		return nil
+	}
+	return t.in[t.pos:]
+}
+
+// Absorb splices draws made by a sub-source (the task scheduler's own norace
+// tape) into this tape: they are appended to the record and, in replay mode,
+// the corresponding inputs are skipped.
+func (t *Tape) Absorb(rec []uint32) {
+	t.Rec = append(t.Rec, rec...)
+	t.Draws += len(rec)
+	if t.replay {
+		t.pos += len(rec)
+	}
+}
